@@ -57,6 +57,10 @@ func (s *Server) checksum(pos, size int64) (sum string, err error) {
 func connAOFMD5(conn *RESPConn, pos, size int64) (sum string, err error) {
 	v, err := conn.Do("aofmd5", pos, size)
 	if err != nil {
+		if err == io.EOF {
+			// a dropped connection, not an "EOF" reply from the leader
+			err = io.ErrUnexpectedEOF
+		}
 		return "", err
 	}
 	if v.Error() != nil {
@@ -135,6 +139,22 @@ func getEndOfLastValuePositionInFile(fname string, startPos int64) (int64, error
 	}
 }
 
+// followStartOver discards the local aof and the dataset built from it, so
+// that the leader's aof can be applied from position zero.
+func (s *Server) followStartOver() error {
+	s.flushAOF(false)
+	fname := s.aof.Name()
+	s.aof.Close()
+	f, err := os.Create(fname)
+	if err != nil {
+		log.Fatalf("could not recreate aof, possible data loss. %s", err.Error())
+		return err
+	}
+	s.aof = f
+	s.reset()
+	return nil
+}
+
 // followCheckSome is not a full checksum. It just "checks some" data.
 // We will do some various checksums on the leader until we find the correct position to start at.
 func (s *Server) followCheckSome(addr string, followc int, auth string,
@@ -148,7 +168,11 @@ func (s *Server) followCheckSome(addr string, followc int, auth string,
 		return 0, errNoLongerFollowing
 	}
 	if s.aofsz < checksumsz {
-		return 0, nil
+		// too small to compare, start over from the leader's first command
+		if s.aofsz == 0 {
+			return 0, nil
+		}
+		return 0, s.followStartOver()
 	}
 
 	conn, err := DialTimeout(addr, time.Second*2)
@@ -194,13 +218,7 @@ func (s *Server) followCheckSome(addr string, followc int, auth string,
 	fullpos := pos
 	fname := s.aof.Name()
 	if pos == 0 {
-		s.aof.Close()
-		s.aof, err = os.Create(fname)
-		if err != nil {
-			log.Fatalf("could not recreate aof, possible data loss. %s", err.Error())
-			return 0, err
-		}
-		return 0, nil
+		return 0, s.followStartOver()
 	}
 
 	// we want to truncate at a command location
